@@ -17,7 +17,8 @@ def isIdent (c : Char) : Bool := c.isAlphanum || c == '_'
 mutual
 partial def parseTy (s : List Char) : Option (Ty × List Char) :=
   let kws : List (String × Ty) := [("bool", .bool), ("i64", .i64), ("u64", .u64), ("i32", .i32), ("u32", .u32),
-    ("f64", .f64), ("f32", .f32), ("str", .str), ("any", .any), ("ign", .ign)]
+    ("f64", .f64), ("f32", .f32), ("str", .str), ("any", .any), ("ign", .ign),
+    ("u16", .u16), ("i16", .i16), ("u8", .u8), ("i8", .i8)]
   let kw := kws.findSome? (fun (k, t) =>
     match dropPrefix? k s with
     | some r => match r with
